@@ -357,7 +357,12 @@ struct Slot {
     width: u8,
 }
 
+/// Set from the command line (`--deep`): the thorough tier uses up to 6 executions, 6 adds and
+/// 6 loop iterations instead of 4 / 4 / 4.
+static DEEP: std::sync::atomic::AtomicBool = std::sync::atomic::AtomicBool::new(false);
+
 fn generate(rng: &mut Rng) -> Scenario {
+    let deep = DEEP.load(std::sync::atomic::Ordering::Relaxed);
     let region_len = *rng.pick(&[64usize, 256, 2048]);
     let mut init = vec![0u8; PAGE];
     for b in init.iter_mut().take(region_len) {
@@ -379,7 +384,7 @@ fn generate(rng: &mut Rng) -> Scenario {
             }
         }
     }
-    let n = rng.range(2, 4) as usize;
+    let n = rng.range(2, if deep { 6 } else { 4 }) as usize;
     let engines_enabled: Vec<Engine> = {
         let mut v = Vec::new();
         for e in [Engine::Interp, Engine::Jit, Engine::Cl] {
@@ -402,7 +407,7 @@ fn generate(rng: &mut Rng) -> Scenario {
             Engine::Jit => *rng.pick(&[Reach::RawPacket, Reach::RawPacket, Reach::Mbuff, Reach::Allowed]),
             Engine::Cl => *rng.pick(&[Reach::RawPacket, Reach::RawPacket, Reach::Mbuff]),
         };
-        let k = rng.range(1, 4) as usize;
+        let k = rng.range(1, if deep { 6 } else { 4 }) as usize;
         let mut adds = Vec::new();
         for _ in 0..k {
             let s = *rng.pick(&slots);
@@ -453,7 +458,7 @@ fn generate(rng: &mut Rng) -> Scenario {
         } else {
             None
         };
-        let loop_n = if rng.chance(1, 4) { rng.range(2, 4) as u8 } else { 1 };
+        let loop_n = if rng.chance(1, 4) { rng.range(2, if deep { 6 } else { 4 }) as u8 } else { 1 };
         if loop_n > 1 {
             // r9 is the loop counter
             for a in adds.iter_mut() {
@@ -1377,6 +1382,9 @@ fn cmd_show(args: &[String]) -> i32 {
 fn main() {
     let args: Vec<String> = std::env::args().collect();
     std::panic::set_hook(Box::new(|_| {}));
+    if args.iter().any(|a| a == "--deep") {
+        DEEP.store(true, std::sync::atomic::Ordering::Relaxed);
+    }
     sched::init();
     let code = match args.get(1).map(|s| s.as_str()) {
         Some("run") => cmd_run(&args),
